@@ -73,7 +73,29 @@ fn reset_ins() {
     }
 }
 
-/// expected reports of BTreeMap<KeyT, u8> over the root object (keep-going)
+/// what the post-conditions need from a map target (native replay inspects the real container)
+pub trait MapLike {
+    fn get_val(&self, k: &KeyT) -> Option<u8>;
+    fn is_empty_(&self) -> bool;
+}
+impl MapLike for BTreeMap<KeyT, u8> {
+    fn get_val(&self, k: &KeyT) -> Option<u8> {
+        self.get(k).copied()
+    }
+    fn is_empty_(&self) -> bool {
+        self.is_empty()
+    }
+}
+impl MapLike for HashMap<KeyT, u8> {
+    fn get_val(&self, k: &KeyT) -> Option<u8> {
+        self.get(k).copied()
+    }
+    fn is_empty_(&self) -> bool {
+        self.is_empty()
+    }
+}
+
+/// expected reports of a map target keyed by KeyT over the root object (keep-going)
 fn map_expect(exp: &mut Exp) {
     let n = node(0);
     if n.kind != K_MAP {
@@ -94,9 +116,9 @@ fn map_expect(exp: &mut Exp) {
 }
 
 /// the insert log equals the payload's entries in order, keys parsed
-fn map_log_ok(m: &BTreeMap<KeyT, u8>) -> bool {
+fn map_log_ok<M: MapLike>(m: &M) -> bool {
     let n = node(0);
-    if unsafe { NINS } == 0 && !m.is_empty() {
+    if unsafe { NINS } == 0 && !m.is_empty_() {
         // native replay: no stub, inspect the real container
         let mut j = 0;
         while j < n.len as usize {
@@ -110,7 +132,7 @@ fn map_log_ok(m: &BTreeMap<KeyT, u8>) -> bool {
                 }
                 l += 1;
             }
-            if m.get(&KeyT(kb)).map(|v| *v as u64) != Some(node(n.kids[last]).u) {
+            if m.get_val(&KeyT(kb)).map(|v| v as u64) != Some(node(n.kids[last]).u) {
                 return false;
             }
             j += 1;
@@ -133,13 +155,13 @@ fn map_log_ok(m: &BTreeMap<KeyT, u8>) -> bool {
 }
 
 #[cfg(kani)]
-fn p_map_c01(n: usize, distinct: bool) {
+fn p_map_c01<M: MapLike + deserr::Deserr<Rec<0>>>(n: usize, distinct: bool) {
     set_tab(&MAP_TAB);
     sk_map_tab(n, 4, distinct);
     reset();
     reset_ins();
     set_script(any_script());
-    let r = deserialize::<BTreeMap<KeyT, u8>, SV, Rec<0>>(SV(0));
+    let r = deserialize::<M, SV, Rec<0>>(SV(0));
     post_c01(&r);
     if let Ok(m) = &r {
         assert!(map_log_ok(m), "C06: a map must receive each entry under its parsed key, entry by entry");
@@ -150,13 +172,13 @@ fn p_map_c01(n: usize, distinct: bool) {
 }
 
 #[cfg(kani)]
-fn p_map_c02(n: usize) {
+fn p_map_c02<M: MapLike + deserr::Deserr<Rec<M_LOG>>>(n: usize) {
     set_tab(&MAP_TAB);
     sk_map_tab(n, 4, true);
     reset();
     reset_ins();
     all_continue();
-    let r = deserialize::<BTreeMap<KeyT, u8>, SV, Rec<M_LOG>>(SV(0));
+    let r = deserialize::<M, SV, Rec<M_LOG>>(SV(0));
     let mut exp = Exp::new();
     map_expect(&mut exp);
     post_c02(&exp);
@@ -206,20 +228,22 @@ macro_rules! hm {
         #[kani::stub(alloc::fmt::format, fmt_stub)]
         #[kani::stub(std::collections::BTreeMap::insert, btm_insert_stub)]
         #[kani::stub(std::collections::BTreeSet::insert, bts_insert_stub)]
+        #[kani::stub(std::collections::HashMap::insert, hm_insert_stub)]
+        #[kani::stub(std::hash::RandomState::new, rs_new_stub)]
         pub fn $name() {
             $body;
         }
     };
 }
 
-hm!(c01_q_btmap_m1, p_map_c01(1, true));
-hm!(c01_t_btmap_m2, p_map_c01(2, true));
-hm!(c01_t_btmap_m3, p_map_c01(3, true));
-hm!(c12_q_btmap_dup_m2, p_map_c01(2, false));
-hm!(c06_q_btmap_m1, p_map_c02(1));
-hm!(c06_t_btmap_m2, p_map_c02(2));
-hm!(c06_t_btmap_m3, p_map_c02(3));
-hm!(c02_t_btmap_m2, p_map_c02(2));
+hm!(c01_q_btmap_m1, p_map_c01::<BTreeMap<KeyT, u8>>(1, true));
+hm!(c01_t_btmap_m2, p_map_c01::<BTreeMap<KeyT, u8>>(2, true));
+hm!(c01_t_btmap_m3, p_map_c01::<BTreeMap<KeyT, u8>>(3, true));
+hm!(c12_q_btmap_dup_m2, p_map_c01::<BTreeMap<KeyT, u8>>(2, false));
+hm!(c06_q_btmap_m1, p_map_c02::<BTreeMap<KeyT, u8>>(1));
+hm!(c06_t_btmap_m2, p_map_c02::<BTreeMap<KeyT, u8>>(2));
+hm!(c06_t_btmap_m3, p_map_c02::<BTreeMap<KeyT, u8>>(3));
+hm!(c02_t_btmap_m2, p_map_c02::<BTreeMap<KeyT, u8>>(2));
 
 // ---- BTreeSet<u8>: insert log = payload elements in order
 #[cfg(kani)]
@@ -264,13 +288,13 @@ hm!(c06_t_btset_s3, p_set(3));
 
 // ---- C15 for map targets: member order does not change the outcome
 #[cfg(kani)]
-fn p_map_c15(n: usize) {
+fn p_map_c15<M: MapLike + deserr::Deserr<Rec<M_LOG>>>(n: usize) {
     set_tab(&MAP_TAB);
     sk_map_tab(n, 4, true);
     reset();
     reset_ins();
     all_continue();
-    let r1 = deserialize::<BTreeMap<KeyT, u8>, SV, Rec<M_LOG>>(SV(0));
+    let r1 = deserialize::<M, SV, Rec<M_LOG>>(SV(0));
     let ok1 = r1.is_ok();
     let n1 = nrep();
     let mut log1 = [REP0; MAXREP];
@@ -286,7 +310,7 @@ fn p_map_c15(n: usize) {
     reset();
     reset_ins();
     all_continue();
-    let r2 = deserialize::<BTreeMap<KeyT, u8>, SV, Rec<M_LOG>>(SV(0));
+    let r2 = deserialize::<M, SV, Rec<M_LOG>>(SV(0));
     assert!(ok1 == r2.is_ok(), "C15: success depends on the order of the object's members");
     assert!(n1 == nrep(), "C15: the number of reports depends on the order of the object's members");
     let mut i = 0;
@@ -323,5 +347,27 @@ fn p_map_c15(n: usize) {
     kani::cover!(!ok1, "Err reached");
     core::mem::forget(r2);
 }
-hm!(c15_t_btmap_m2, p_map_c15(2));
-hm!(c15_t_btmap_m3, p_map_c15(3));
+hm!(c15_t_btmap_m2, p_map_c15::<BTreeMap<KeyT, u8>>(2));
+hm!(c15_t_btmap_m3, p_map_c15::<BTreeMap<KeyT, u8>>(3));
+
+
+// ---- HashMap<KeyT, u8>: same obligations; `insert` -> call log, `RandomState::new` -> zeroed
+// (the real one needs the OS random source, which Kani cannot model)
+pub fn hm_insert_stub<K, V, S, A: core::alloc::Allocator>(_m: &mut HashMap<K, V, S, A>, k: K, v: V) -> Option<V> {
+    log_insert(first_byte(&k), first_byte(&v));
+    core::mem::forget(k);
+    core::mem::forget(v);
+    None
+}
+pub fn rs_new_stub() -> std::hash::RandomState {
+    unsafe { core::mem::zeroed() }
+}
+
+
+// ---- HashMap<KeyT, u8> (the impl is separate code in src/impls.rs)
+hm!(c01_q_hashmap_m1, p_map_c01::<HashMap<KeyT, u8>>(1, true));
+hm!(c06_q_hashmap_m1, p_map_c02::<HashMap<KeyT, u8>>(1));
+hm!(c01_t_hashmap_m2, p_map_c01::<HashMap<KeyT, u8>>(2, true));
+hm!(c06_t_hashmap_m2, p_map_c02::<HashMap<KeyT, u8>>(2));
+hm!(c12_t_hashmap_dup_m2, p_map_c01::<HashMap<KeyT, u8>>(2, false));
+hm!(c15_t_hashmap_m2, p_map_c15::<HashMap<KeyT, u8>>(2));
